@@ -41,6 +41,7 @@ structure Ev where
 
 inductive Op where
   | push (prod : Nat) (v : Nat)
+  | pushthrow             -- `push` whose item constructor throws (precondition: no pop is waiting)
   | pop (cons : Nat)
   | upop (c : Nat)
   | size
@@ -55,6 +56,7 @@ inductive Res where
   | flag (b : Bool)
   | num (n : Nat)
   | unit
+  | threw                             -- the exception of the item's constructor left `push`
   | bad                               -- outside the precondition (queue already destroyed / no such k)
   deriving Repr, DecidableEq
 
@@ -87,6 +89,14 @@ def stepPush (s : State) (p v : Nat) : State × Res :=
   | [] =>
       ({ s with items := s.items ++ [⟨s.nextPush, p, v⟩], nextPush := s.nextPush + 1,
                 pushed := s.pushed ++ [⟨s.nextPush, p, v⟩] }, Res.push s.nextPush false)
+
+/-- `queue::push` whose item constructor throws (queue.h:157: `_queue.emplace` throws inside the lock region, the
+`unique_lock` releases the lock during unwinding, `std::deque::emplace_back` has no effect when it throws): nothing
+changes, the exception leaves `push`.  Precondition: no pop is waiting - with a parked promise the constructor runs
+inside `promise::operator()` (queue.h:154) *after* the promise was moved out of `_awaiters` and claimed, which is the
+promise layer's business (C01), not modelled here (`Res.bad`). -/
+def stepPushThrow (s : State) : State × Res :=
+  if s.waiters.isEmpty then (s, Res.threw) else (s, Res.bad)
 
 /-- `queue::pop` lock region (queue.h:197-212): park the promise, or resolve it with the head -/
 def stepPop (s : State) (c : Nat) : State × Res :=
@@ -122,6 +132,7 @@ def stepDeliver (s : State) (k : Nat) : State × Res :=
 def stepLive (s : State) (op : Op) : State × Res :=
   match op with
   | Op.push p v => stepPush s p v
+  | Op.pushthrow => stepPushThrow s
   | Op.pop c => stepPop s c
   | Op.upop c => stepUpop s c
   | Op.size => (s, Res.num s.items.length)
@@ -194,6 +205,7 @@ def stepDeliver (s : State) (k : Nat) : State × Res :=
 def stepLive (s : State) (op : Op) : State × Res :=
   match op with
   | Op.push _ _ => stepPush s
+  | Op.pushthrow => if s.waiters.isEmpty then (s, Res.threw) else (s, Res.bad)   -- (void has no item to construct)
   | Op.pop c => stepPop s c
   | Op.upop c => stepUpop s c
   | Op.size => (s, Res.num s.sz)
